@@ -77,10 +77,17 @@ def eval_template(case):
                         if suf[0] in 'Z+-' and base[-4:].isdigit() and base[-5] == ' ':
                             continue          # a designator glued to a trailing year ('... 2003+0300', '... 2003Z')
                         variants.append((base + suf, off, form))
+            # the same flags given explicitly to a parser whose parserinfo prefers the opposite: the explicit ones decide
+            variants.append((base, None, 'explicit-flags-over-parserinfo'))
             for text, tzexp, form in variants:
                 n += 1
                 try:
-                    got = parser.parse(text, default=DEFAULT, **kw)
+                    if form == 'explicit-flags-over-parserinfo':
+                        df, yf = bool(kw.get('dayfirst')), bool(kw.get('yearfirst'))
+                        got = parser.parser(parser.parserinfo(dayfirst=not df, yearfirst=not yf)).parse(
+                            text, default=DEFAULT, dayfirst=df, yearfirst=yf)
+                    else:
+                        got = parser.parse(text, default=DEFAULT, **kw)
                 except Exception as e:
                     got = e
                 why = check(got, exp, tzexp) if not isinstance(got, Exception) else 'valid-rendering-rejected'
